@@ -967,7 +967,7 @@ def replay(ctx, path):
         return 1 if bad or rc != 0 else 0
     res = run_episodes(ctx, harness, [("replay", rp["script"])])[0]
     for i, l in enumerate(res["lines"]):
-        print("%-40s impl=%s | repaired-model=%s | unrepaired-model=%s" % (
-            l[:40], res["impl"][i] if i < len(res["impl"]) else "<none>", res["fix"][i], res["old"][i]))
+        print("%-40s impl=%s | repaired-model=%s | model-of-the-code-as-it-is=%s | old-model=%s" % (
+            l[:40], res["impl"][i] if i < len(res["impl"]) else "<none>", res["fix"][i], res["cur"][i], res["old"][i]))
     print("verdict:", res["verdict"], res["detail"], "rc=%d" % res["rc"])
     return 0 if res["verdict"] == "ok" else 1
